@@ -555,6 +555,13 @@ static void check13(Subject const& s, int len, CallRes const& r, std::string con
         tally.add("bad_failure");
         return;
     }
+    if (!s.scaled && len >= s.full_len) {
+        // an integer has exactly one numeral: if it fits in [first,last) the call must succeed (for scaled values a
+        // shorter, truncated text is legitimate, so this is judged for integers only)
+        tally.add("fail_although_numeral_fits");
+        vf::violation("fail_although_numeral_fits/" + region(s, len), id(), id() + ": {last,value_too_large} although the complete numeral (" + std::to_string(s.full_len) + " chars) fits the buffer");
+        return;
+    }
     if (len >= s.capacity) tally.add("fail_with_capacity_sized_buffer");
     else if (len >= s.full_len) tally.add("fail_although_text_fits");
     else if (len == 0) tally.add("ok_fail_empty_buffer");
@@ -1195,6 +1202,9 @@ template<class T, int Base>
 
 }  // namespace tc
 
+using E1 = cnl::elastic_integer<1>;
+using E2 = cnl::elastic_integer<2>;
+using E3 = cnl::elastic_integer<3>;
 using E7 = cnl::elastic_integer<7>;
 using E31 = cnl::elastic_integer<31>;
 using OVN = cnl::overflow_integer<int>;
